@@ -18,9 +18,19 @@ func init() {
 		img := unhx(a[0])
 		_, peErr := pe.NewFile(bytes.NewReader(img))
 		peOK := b01(peErr == nil)
-		p, err := authenticode.Parse(bytes.NewReader(img))
+		// the reader may have been looked at before (a caller checking for "MZ"): ReadAt does not care
+		rd := bytes.NewReader(img)
+		if len(img) > 4 && img[3]%2 == 0 {
+			rd.Read(make([]byte, 2+int(img[3]%7)))
+		}
+		p, err := authenticode.Parse(rd)
 		if err != nil {
 			return []string{peOK, "err"}
+		}
+		// digests of other algorithms were asked for before
+		if len(img) > 5 && img[5]%2 == 0 {
+			p.Hash(crypto.SHA1)
+			p.Hash(crypto.SHA512)
 		}
 		// other objects come and go between parsing this image and using it: the image the
 		// worker saw before is parsed, hashed and signed again now
